@@ -41,7 +41,8 @@ def param_sets(cls: str, tier: str, seed: int) -> list[list[float]]:
     if cls in ("Rectangle", "SemiEllipse"):
         return [[s, e] for s, e in itertools.permutations(V, 2)]
     if cls in ("SShape", "ZShape"):
-        return [[s, e] for s, e in itertools.combinations(V, 2)]
+        # start < end, plus the degenerate vertical edge start == end (a step at that point)
+        return [[s, e] for s, e in itertools.combinations(V, 2)] + [[v, v] for v in V]
     if cls == "Binary":
         return [[s, d] for s in V for d in (INF, -INF)]
     if cls == "Bell":
@@ -75,7 +76,8 @@ def param_sets(cls: str, tier: str, seed: int) -> list[list[float]]:
         return out
     if cls == "PiShape":
         W = small if tier == "quick" else V
-        return [[a, b, c, d] for a, b, c, d in itertools.combinations_with_replacement(W, 4) if a < b <= c < d]
+        # bottom_left <= top_left <= top_right <= bottom_right with vertical edges allowed on either side
+        return [[a, b, c, d] for a, b, c, d in itertools.combinations_with_replacement(W, 4) if a < d and (a < b or c < d)]
     if cls == "Discrete":
         return [
             [0.0, 0.0, 0.25, 1.0, 0.5, 0.5, 1.0, 0.0],
